@@ -734,30 +734,42 @@ Proof.
       unfold st_at in Hd. rewrite Hd in H. simpl in H. lia.
     + simpl. auto.
   - (* PMarked *)
-    inversion Hs; subst; clear Hs.
+    simpl in Ht. inversion Hs; subst; clear Hs.
     assert (Hlt : ncomp s < npieces c).
     { pose proof (I_count _ _ I) as H. rewrite count_marked_app in H. simpl in H.
       pose proof (count_st_le Complete (status s)). lia. }
-    eapply inv_global_step; eauto; simpl; auto; try lia.
-    + split; auto.
-    + intros H. pose proof (I_cache _ _ I H). lia.
-    + apply I.
+    assert (T : tinv (set_ncomp s (S (ncomp s))) w PCounted) by (split; auto).
+    assert (C1 : incache (set_ncomp s (S (ncomp s))) = true -> ncomp (set_ncomp s (S (ncomp s))) = npieces c).
+    { simpl. intros H. pose proof (I_cache _ _ I H). lia. }
+    refine (inv_global_step s (set_ncomp s (S (ncomp s))) pre post w PMarked PCounted I
+              eq_refl eq_refl eq_refl _ _ T _ _ C1 _ _); simpl; auto; try lia.
+    apply I.
   - (* PCounted *)
-    destruct (ncomp s =? length (status s)) eqn:E; inversion Hs; subst; eapply inv_silent; eauto.
-    + apply Nat.eqb_eq in E. split; simpl; auto. split; auto. lia.
-    + simpl. auto.
-    + split; simpl; auto.
-    + apply Nat.eqb_neq in E. simpl. intros _. right. lia.
+    simpl in Ht.
+    destruct (ncomp s =? length (status s)) eqn:E; inversion Hs; subst; clear Hs.
+    + apply Nat.eqb_eq in E. refine (inv_silent s' pre post w PCounted PMove I _ _ _ _).
+      * split; simpl; auto. split; auto. lia.
+      * reflexivity.
+      * reflexivity.
+      * simpl. auto.
+    + apply Nat.eqb_neq in E. refine (inv_silent s' pre post w PCounted (PDone ROk) I _ _ _ _).
+      * split; simpl; auto.
+      * reflexivity.
+      * reflexivity.
+      * simpl. intros _. right. lia.
   - (* PMove *)
     simpl in Ht. destruct Ht as [Ha Hn]. inversion Hs; subst; clear Hs.
-    eapply inv_global_step; eauto; simpl; auto.
-    + split; auto. simpl. auto.
-    + intros H. apply (I_cache _ _ I). apply (I_comm _ _ I). exact H.
+    assert (T : tinv (set_incache s true) w PStore).
+    { split; [exact Hin|]. simpl. destruct Ha as (i & A & B & C). split; [exists i; auto|auto]. }
+    refine (inv_global_step s (set_incache s true) pre post w PMove PStore I
+              eq_refl eq_refl eq_refl _ _ T _ _ _ _ _); simpl; auto.
   - (* PStore *)
     simpl in Ht. destruct Ht as (Ha & Hn & Hc). inversion Hs; subst; clear Hs.
-    eapply inv_global_step; eauto; simpl; auto.
-    + split; auto.
-    + apply I.
+    assert (T : tinv (set_committed s true) w (PDone ROk)).
+    { split; [exact Hin|]. simpl. destruct Ha as (i & A & B & C). exists i; auto. }
+    refine (inv_global_step s (set_committed s true) pre post w PStore (PDone ROk) I
+              eq_refl eq_refl eq_refl _ _ T _ _ _ _ _); simpl; auto.
+    (* all side conditions closed by auto *)
   - (* PFailed *)
     simpl in Ht. destruct Ht as (Hv & [Hd Hsc] & Hsum). pose proof (valid_idx_lt _ _ Hv) as Hi.
     inversion Hs; subst; clear Hs.
@@ -779,6 +791,244 @@ Proof.
     + simpl. auto.
   - (* PDone *)
     inversion Hs; subst. exact I.
+Qed.
+
+
+(* ---- the system ---- *)
+Definition SInv (S : sys) : Prop := Inv (s_st S) (s_ths S).
+
+Lemma inv_sys_step : forall S k, SInv S -> SInv (sys_step c S k).
+Proof.
+  intros S k I. unfold sys_step. destruct (nth_error (s_ths S) k) as [th|] eqn:E; [|exact I].
+  destruct (nth_error_split_at _ _ _ _ E) as (pre & post & Eths & Ek).
+  destruct th as [w p]. simpl. destruct (tstep c (s_st S) w p) as [s' p'] eqn:Es.
+  unfold SInv in *. simpl. rewrite Eths in *. rewrite <- Ek, upd_app.
+  eapply inv_tstep; eauto.
+Qed.
+
+Lemma inv_run : forall sched S, SInv S -> SInv (run c S sched).
+Proof.
+  induction sched; simpl; intros S I; auto. apply IHsched. apply inv_sys_step. exact I.
+Qed.
+
+Lemma init_fresh_eq : init_fresh c =
+  mkts (repeat Empty (npieces c)) (repeat 0%N (c_len c)) (repeat 0%N (npieces c)) 0
+       (Nat.eqb 0 (npieces c)) (Nat.eqb 0 (npieces c)).
+Proof.
+  unfold init_fresh, new_torrent.
+  assert (E : map deser_status (repeat 0%N (npieces c)) = repeat Empty (npieces c)).
+  { induction (npieces c); simpl; auto. rewrite IHn0. reflexivity. }
+  rewrite E. rewrite count_st_repeat_other by discriminate. rewrite repeat_length. reflexivity.
+Qed.
+
+Lemma count_own_start : forall i l, count_own i (map (fun w => mkth w PStart) l) = 0.
+Proof. induction l; simpl; auto. Qed.
+
+Lemma count_marked_start : forall l, count_marked (map (fun w => mkth w PStart) l) = 0.
+Proof. induction l; simpl; auto. Qed.
+
+Lemma nth_repeat_any : forall A (x d : A) k i, i < k -> nth i (repeat x k) d = x.
+Proof. induction k; simpl; intros; [lia|]. destruct i; auto. apply IHk. lia. Qed.
+
+Lemma inv_init : SInv (start (init_fresh c) ws).
+Proof.
+  unfold SInv, start. simpl. rewrite init_fresh_eq.
+  constructor; simpl.
+  - rewrite map_map. simpl. apply map_id.
+  - apply repeat_length.
+  - apply repeat_length.
+  - apply repeat_length.
+  - apply Forall_forall. intros th Hth. apply in_map_iff in Hth as (w & <- & Hw). split; simpl; auto.
+  - intros i Hi H. unfold st_at in H. simpl in H. rewrite nth_repeat_any in H by auto. discriminate.
+  - intros i Hi H. rewrite nth_repeat_any in H by auto. discriminate.
+  - intros i Hi H. rewrite nth_repeat_any in H by auto. discriminate.
+  - intros i Hi. rewrite count_own_start. unfold dirty01, st_at. simpl. rewrite nth_repeat_any by auto. reflexivity.
+  - rewrite count_marked_start. rewrite count_st_repeat_other by discriminate. reflexivity.
+  - intros H. destruct (npieces c); [reflexivity|discriminate].
+  - auto.
+  - intros H. left. rewrite <- H. reflexivity.
+Qed.
+
+Definition reachable (S : sys) : Prop := exists sched, S = run c (start (init_fresh c) ws) sched.
+
+Theorem reachable_inv : forall S, reachable S -> SInv S.
+Proof. intros S [sched ->]. apply inv_run. apply inv_init. Qed.
+
+Lemma reachable_step : forall S k, reachable S -> reachable (sys_step c S k).
+Proof.
+  intros S k [sched ->]. exists (sched ++ [k]). unfold run. rewrite fold_left_app. reflexivity.
+Qed.
+
+Lemma reachable_run : forall sched S, reachable S -> reachable (run c S sched).
+Proof. induction sched; simpl; intros; auto. apply IHsched. apply reachable_step. auto. Qed.
+
+(* ---- consequences of the invariant ---- *)
+
+Lemma complete_verified : forall S i, SInv S -> i < npieces c -> st_at (s_st S) i = Complete ->
+  verified (s_st S) i.
+Proof. intros S i I Hi H. apply (I_verified _ _ I i Hi). apply (I_sc_complete _ _ I i Hi H). Qed.
+
+Lemma persisted_verified : forall S i, SInv S -> i < npieces c -> nth i (sidecar (s_st S)) 0%N = 1%N ->
+  verified (s_st S) i.
+Proof. intros S i I Hi H. apply (I_verified _ _ I i Hi H). Qed.
+
+Lemma commit_all_complete : forall S, SInv S ->
+  incache (s_st S) = true \/ committed (s_st S) = true ->
+  forall i, i < npieces c -> st_at (s_st S) i = Complete.
+Proof.
+  intros S I H. eapply incache_all_complete; eauto.
+  destruct H; auto. apply (I_comm _ _ I). auto.
+Qed.
+
+Lemma count_marked_done : forall ths, forallb thread_done ths = true -> count_marked ths = 0.
+Proof.
+  induction ths; simpl; intros H; auto. apply andb_prop in H as [H1 H2]. rewrite IHths by auto.
+  unfold thread_done in H1. destruct (t_pc a); simpl; auto; discriminate.
+Qed.
+
+Lemma count_marked_le : forall ths, count_marked ths <= length ths.
+Proof. induction ths; simpl; auto. destruct (t_pc a); simpl; lia. Qed.
+
+Lemma progress_accounting : forall S, SInv S ->
+  ncomp (s_st S) + count_marked (s_ths S) = count_st Complete (status (s_st S)).
+Proof. intros S I. apply (I_count _ _ I). Qed.
+
+Lemma progress_quiescent : forall S, SInv S -> quiescent S = true ->
+  ncomp (s_st S) = count_st Complete (status (s_st S)).
+Proof.
+  intros S I Q. pose proof (I_count _ _ I) as H. unfold quiescent in Q.
+  rewrite (count_marked_done _ Q) in H. lia.
+Qed.
+
+Lemma not_committing_done : forall ths, forallb thread_done ths = true ->
+  ~ Exists (fun th => committing (t_pc th)) ths.
+Proof.
+  intros ths H E. apply Exists_exists in E as (th & Hin & Hc).
+  rewrite forallb_forall in H. specialize (H th Hin). unfold thread_done in H.
+  destruct (t_pc th); simpl in *; try discriminate; auto.
+Qed.
+
+(* nothing is lost: when every caller has returned and every piece is complete, the torrent
+   is committed *)
+Lemma commit_not_lost : forall S, SInv S -> quiescent S = true ->
+  (forall i, i < npieces c -> st_at (s_st S) i = Complete) ->
+  committed (s_st S) = true /\ incache (s_st S) = true.
+Proof.
+  intros S I Q Hall. pose proof (progress_quiescent S I Q) as Hn.
+  assert (Hc : count_st Complete (status (s_st S)) = npieces c).
+  { rewrite <- (I_len_st _ _ I). clear Hn. revert Hall. rewrite <- (I_len_st _ _ I).
+    unfold st_at. generalize (status (s_st S)). induction l; simpl; intros H; auto.
+    pose proof (H 0 ltac:(lia)) as H0. simpl in H0. subst a. simpl. f_equal. apply IHl.
+    intros i Hi. apply (H (S i)). lia. }
+  rewrite Hc in Hn. destruct (I_live _ _ I Hn) as [H|H].
+  - split; auto. apply (I_comm _ _ I H).
+  - exfalso. eapply not_committing_done; eauto.
+Qed.
+
+(* ---- what one step can change ---- *)
+Lemma frame_pwrite : forall s i dn ch,
+  i < npieces c -> length (file s) = c_len c -> length dn + length ch <= plen c i ->
+  frame i s (set_file s (pwrite (file s) (poff c i + length dn) ch)).
+Proof.
+  intros s i dn ch Hi Lf Hlen. pose proof (region_in_file c Hwf i Hi) as Hreg.
+  constructor; simpl; auto. intros j m Hj Hjn Hm.
+  apply pwrite_disjoint; [lia|].
+  destruct (Nat.lt_ge_cases j i) as [Hlt|Hge].
+  - left. pose proof (regions_ordered c Hwf j i Hlt). lia.
+  - right. pose proof (regions_ordered c Hwf i j ltac:(lia)). lia.
+Qed.
+
+Lemma frame_set_sidecar : forall s i v, frame i s (set_sidecar s (upd i v (sidecar s))).
+Proof. intros. constructor; simpl; auto. intros. apply nth_upd_neq. auto. Qed.
+
+Lemma tstep_effect : forall s s' pre post w p p',
+  Inv s (pre ++ mkth w p :: post) -> tstep c s w p = (s', p') ->
+  (status s' = status s /\ file s' = file s /\ sidecar s' = sidecar s /\
+   (incache s = true -> incache s' = true)) \/
+  (exists i0, i0 < npieces c /\ st_at s i0 <> Complete /\ frame i0 s s').
+Proof.
+  intros s s' pre post w p p' I Hs.
+  destruct (inv_mid _ _ _ _ I) as ([Hin Ht] & _ & _). simpl in Hin, Ht.
+  pose proof (I_len_f _ _ I) as Lf.
+  destruct p; cbn [tstep] in Hs.
+  - destruct ((w_idx w <? 0)%Z || (Z.of_nat (length (status s)) <=? w_idx w)%Z);
+      [|destruct (w_decl w =? Z.of_nat (plen c (Z.to_nat (w_idx w))))%Z]; inversion Hs; subst; left; auto.
+  - destruct (pstatus_eqb (st_at s i) Complete); inversion Hs; subst; left; auto.
+  - destruct (pstatus_eqb (st_at s i) Dirty); inversion Hs; subst; left; auto.
+  - simpl in Ht. destruct (st_at s i) eqn:E; inversion Hs; subst; [|left; auto|left; auto].
+    right. exists i. split; [apply Ht|]. split; [rewrite E; discriminate|]. apply frame_set_status.
+  - destruct (incache s); inversion Hs; subst; left; auto.
+  - simpl in Ht. destruct Ht as (Hv & [Hd Hsc] & dn & Ep & Epos & Epre).
+    destruct rest as [|ch rest].
+    + destruct (w_hsum w =? psum c i)%N; inversion Hs; subst; left; auto.
+    + inversion Hs; subst. right. exists i. split; [apply Hv|]. split; [rewrite Hd; discriminate|].
+      apply frame_pwrite; auto; [apply Hv|].
+      destruct Hv as (_ & _ & _ & Hl & _). rewrite Ep in Hl. simpl in Hl. rewrite !app_length in Hl. lia.
+  - simpl in Ht. destruct Ht as (Hv & [Hd Hsc] & _).
+    destruct (incache s); [inversion Hs; subst; left; auto|].
+    destruct (i <? length (sidecar s)); inversion Hs; subst; [|left; auto].
+    right. exists i. split; [apply Hv|]. split; [rewrite Hd; discriminate|]. apply frame_set_sidecar.
+  - simpl in Ht. destruct Ht as (Hv & Hd & _). inversion Hs; subst.
+    right. exists i. split; [apply Hv|]. split; [rewrite Hd; discriminate|]. apply frame_set_status.
+  - inversion Hs; subst; left; auto.
+  - destruct (ncomp s =? length (status s)); inversion Hs; subst; left; auto.
+  - inversion Hs; subst; left; simpl; auto.
+  - inversion Hs; subst; left; auto.
+  - simpl in Ht. destruct Ht as (Hv & [Hd _] & _). inversion Hs; subst.
+    right. exists i. split; [apply Hv|]. split; [rewrite Hd; discriminate|]. apply frame_set_status.
+  - inversion Hs; subst; left; auto.
+Qed.
+
+Lemma sys_step_effect : forall S k, SInv S ->
+  let s := s_st S in let s' := s_st (sys_step c S k) in
+  (status s' = status s /\ file s' = file s /\ sidecar s' = sidecar s /\
+   (incache s = true -> incache s' = true)) \/
+  (exists i0, i0 < npieces c /\ st_at s i0 <> Complete /\ frame i0 s s').
+Proof.
+  intros S k I. unfold sys_step. destruct (nth_error (s_ths S) k) as [th|] eqn:E; [|left; auto].
+  destruct (nth_error_split_at _ _ _ _ E) as (pre & post & Eths & Ek).
+  destruct th as [w p]. simpl. destruct (tstep c (s_st S) w p) as [s' p'] eqn:Es. simpl.
+  unfold SInv in I. rewrite Eths in I. eapply tstep_effect; eauto.
+Qed.
+
+(* a complete piece stays complete and its bytes are never written again *)
+Lemma complete_stable_step : forall S k i, SInv S -> i < npieces c ->
+  st_at (s_st S) i = Complete ->
+  st_at (s_st (sys_step c S k)) i = Complete /\
+  region c (file (s_st (sys_step c S k))) i = region c (file (s_st S)) i.
+Proof.
+  intros S k i I Hi Hc. destruct (sys_step_effect S k I) as [(E1 & E2 & E3 & _)|(i0 & Hi0 & Hn & F)].
+  - unfold st_at, region in *. rewrite E1, E2. auto.
+  - assert (i <> i0) by congruence. split.
+    + rewrite (F_st _ _ _ F); auto.
+    + unfold region. apply (F_file _ _ _ F); auto.
+Qed.
+
+Lemma complete_stable : forall sched S i, SInv S -> i < npieces c ->
+  st_at (s_st S) i = Complete ->
+  st_at (s_st (run c S sched)) i = Complete /\
+  region c (file (s_st (run c S sched))) i = region c (file (s_st S)) i.
+Proof.
+  induction sched; simpl; intros S i I Hi Hc; auto.
+  destruct (complete_stable_step S a i I Hi Hc) as [H1 H2].
+  destruct (IHsched (sys_step c S a) i (inv_sys_step _ _ I) Hi H1) as [H3 H4].
+  split; auto. congruence.
+Qed.
+
+(* once the file is in the cache nothing writes to it any more *)
+Lemma cached_frozen_step : forall S k, SInv S -> incache (s_st S) = true ->
+  incache (s_st (sys_step c S k)) = true /\ file (s_st (sys_step c S k)) = file (s_st S).
+Proof.
+  intros S k I Hc. destruct (sys_step_effect S k I) as [(E1 & E2 & E3 & E4)|(i0 & Hi0 & Hn & F)]; auto.
+  exfalso. apply Hn. eapply incache_all_complete; eauto.
+Qed.
+
+Lemma cached_frozen : forall sched S, SInv S -> incache (s_st S) = true ->
+  incache (s_st (run c S sched)) = true /\ file (s_st (run c S sched)) = file (s_st S).
+Proof.
+  induction sched; simpl; intros S I Hc; auto.
+  destruct (cached_frozen_step S a I Hc) as [H1 H2].
+  destruct (IHsched (sys_step c S a) (inv_sys_step _ _ I) H1) as [H3 H4]. split; auto. congruence.
 Qed.
 
 End Invariant.
